@@ -223,19 +223,19 @@ def case_shapes(case):
         out |= shape_of(d, isd, dirpart + d, case["style"])
     if case.get("subdir"):
         out |= {f for f in shape_of(case["subdir"], True, case["subdir"], case["style"]) if f in ("C18-F4",)}
-    if case["style"] in ("tsq", "tdq") and case.get("closed"):
+    if case["style"] in ("tsq", "tdq") and case.get("closed") and not case.get("after"):
         out.add("C18-F10")
     chars = dirpart + case["name"][:case["k"]]
-    if case["style"] in ("sq", "dq", "tsq", "tdq", "psq", "pdq") and (
+    if not case.get("after") and case["style"] in ("sq", "dq", "tsq", "tdq", "psq", "pdq") and (
             chars == "" or (len(STYLES[case["style"]][1]) == 1 and chars.endswith(STYLES[case["style"]][1]))):
         out.add("C18-F11")
     if case["style"] != "none" and not case.get("closed") and _SPLIT_RE.search(chars):
         out.add("C18-F20")
     if case["style"] != "none" and not case.get("closed") and _lexmsg_shape(chars):
         out.add("C18-F6")        # the content of a still-open quote is tokenised word by word
-    if case.get("closed") and not dirpart and case["name"][:case["k"]] in (".", ".."):
+    if case.get("closed") and not case.get("after") and not dirpart and case["name"][:case["k"]] in (".", ".."):
         out.add("C18-F14")
-    if case.get("closed") and not case.get("subdir") and not STYLES[case["style"]][2] and (
+    if case.get("closed") and not case.get("after") and not case.get("subdir") and not STYLES[case["style"]][2] and (
             case["name"] == "~" or any(d[0] == "~" for d in case.get("decoys", []))):
         out.add("C18-F14")
     return out
@@ -316,6 +316,7 @@ def build_line(case):
         raise common.HarnessError("typed text %r (style %s) does not denote %r" % (typed, style, chars))
     head = "rec " + opt + typed
     line = head + (closing if closed else "")
+    after = bool(case.get("after")) and closed          # cursor behind the closing quote: appending to a closed string
     if pathlike:
         # pathlib's spelling when the candidate stays a p-string; the plain spelling when the completer replaces it
         want = {str(PurePosixPath(rel)), rel} | ({rel + "/"} if case["isdir"] else set())
@@ -323,7 +324,7 @@ def build_line(case):
         want = {opt + rel, opt + rel + "/"}
     else:
         want = {opt + rel}
-    return {"line": line, "cursor": len(head), "rel": rel, "chars": chars, "want": want, "dirpart": dirpart}
+    return {"line": line, "cursor": len(line) if after else len(head), "rel": rel, "chars": chars, "want": want, "dirpart": dirpart}
 
 
 def _complete(line, cursor):
@@ -487,7 +488,7 @@ def check_case_a(case):
         or case["style"] != "none"
     labels = ["A:style:" + case["style"], "A", "A:dir" if case["isdir"] else "A:file"]
     if case.get("closed"):
-        labels.append("A:closing-quote-after-cursor")
+        labels.append("A:cursor-after-closing-quote" if case.get("after") else "A:closing-quote-after-cursor")
     if case.get("subdir"):
         labels.append("A:in-subdir")
     if case.get("dot"):
@@ -742,8 +743,9 @@ def case_strategy_a(open_ids, stats=None):
         k = min(k, len(name))
         choices = draw(hs.lists(hs.tuples(hs.integers(0, 15), hs.booleans()), max_size=3))
         flip = draw(hs.booleans())
+        after = closed and draw(hs.integers(0, 2)) == 0
         case = {"part": "A", "name": name, "isdir": isdir, "subdir": subdir, "dot": dot, "opt": "", "style": style,
-                "closed": closed, "k": k, "decoys": pick_decoys(name, choices)}
+                "closed": closed, "after": after, "k": k, "decoys": pick_decoys(name, choices)}
         return repair_known(case, open_ids, stats, flip)
 
     return cases()
@@ -751,7 +753,7 @@ def case_strategy_a(open_ids, stats=None):
 
 def key_a(case):
     return ("A", case["name"], case["isdir"], case.get("subdir"), case.get("dot"), case.get("opt"), case["style"],
-            case.get("closed"), case["k"], tuple(map(tuple, case.get("decoys", []))))
+            case.get("closed"), bool(case.get("after")), case["k"], tuple(map(tuple, case.get("decoys", []))))
 
 
 def fixed_cases(open_ids, stats=None, full=False):
@@ -760,14 +762,14 @@ def fixed_cases(open_ids, stats=None, full=False):
     for name in FIXED_NAMES:
         for style in STYLE_IDS:
             if full:
-                combos = [(k, c, d) for k in sorted({0, 1, len(name)}) for c in (False, True) for d in (False, True)]
+                combos = [(k, c, d) for k in sorted({0, 1, len(name)}) for c in (0, 1, 2) for d in (False, True)]
             else:
-                combos = [(0, False, False), (1, False, False), (len(name), False, False), (1, True, False), (1, False, True)]
+                combos = [(0, 0, False), (1, 0, False), (len(name), 0, False), (1, 1, False), (1, 0, True), (len(name), 2, False)]
             for k, closed, isdir in sorted(set(combos)):
                 if closed and style == "none":
                     continue
                 case = {"part": "A", "name": name, "isdir": isdir, "subdir": "", "dot": False, "opt": "", "style": style,
-                        "closed": closed, "k": k, "decoys": [["decoy", False], [name + "x", False]]}
+                        "closed": bool(closed), "after": closed == 2, "k": k, "decoys": [["decoy", False], [name + "x", False]]}
                 shp = case_shapes(case) & open_ids
                 if shp & case_shapes(dict(case, decoys=[])):
                     if stats is not None:
@@ -864,8 +866,10 @@ def _shrink_a(f, open_ids, seed):
             trials.append(dict(cur, dot=False))
         if cur.get("opt"):
             trials.append(dict(cur, opt=""))
+        if cur.get("after"):
+            trials.append(dict(cur, after=False))
         if cur.get("closed"):
-            trials.append(dict(cur, closed=False))
+            trials.append(dict(cur, closed=False, after=False))
         if cur["k"]:
             trials.append(dict(cur, k=0))
         nm = cur["name"]
@@ -957,6 +961,9 @@ def _where(e):
     return "%s:%s" % (os.path.basename(frames[-1].filename), frames[-1].name) if frames else "?"
 
 
+_OPENQ_RE = re.compile("^[A-Za-z]*('''|\"\"\"|'|\")$")
+
+
 def analyse(parser, text, cursor, bound=HANG_S):
     """-> None when the oracle is satisfied, else (kind, detail, info); info = the reported command context's
     prefix / suffix / quotes (for the narrow predicates) or {}."""
@@ -1015,6 +1022,13 @@ def analyse(parser, text, cursor, bound=HANG_S):
         if not ok:
             return "suffix", "parse(%r, %d): text after the cursor %r does not start with suffix %r (%r)" % (
                 text, cursor, raw_after, c.suffix, c), info
+        # documented shape of the quote fields (CommandContext docstrings): opening_quote is string-prefix letters
+        # followed by a quote; closing_quote, when present, is that quote; "after the closing quote" needs one
+        if c.opening_quote or c.closing_quote or c.is_after_closing_quote:
+            mq = _OPENQ_RE.match(c.opening_quote)
+            if mq is None or (c.closing_quote and c.closing_quote != mq.group(1)) or (c.is_after_closing_quote and not c.closing_quote):
+                return "quote-fields", "parse(%r, %d): inconsistent quote fields opening_quote=%r closing_quote=%r " \
+                    "is_after_closing_quote=%r (%r)" % (text, cursor, c.opening_quote, c.closing_quote, c.is_after_closing_quote, c), info
         if not (0 <= c.arg_index <= len(c.args)):
             return "arg-index", "parse(%r, %d): arg_index %d outside 0..%d (%r)" % (text, cursor, c.arg_index, len(c.args), c), info
     if p is not None:
